@@ -22,6 +22,13 @@ import (
 )
 
 var purityTrees = map[string]map[string]string{
+	// Batch emits some definitions on first use (the LF variable for string defaults / literals with a line break, helper routines): a later program that
+	// needs the same thing through another route must still get it
+	"strdefA": {"main.tsh": "tags := []string{}\ntags[2] = \"x\"\nprint(len(tags), tags[0], tags[2])\n"},
+	"strdefB": {"main.tsh": "var lines []string\nfor i := 0; i < 2; i++ {\n\tlines[i*2] = input()\n}\nprint(len(lines))\n"},
+	"strdefC": {"main.tsh": "func pad(n int) []string {\n\tvar r []string\n\tr[n] = itoa(n)\n\treturn r\n}\nt := pad(3)\nprint(len(t))\n"},
+	"nlA":     {"main.tsh": "s := \"a\\nb\"\nprint(s, len(s))\n"},
+	"nlB":     {"main.tsh": "var b []bool\nb[1] = true\nvar n []int\nn[2] = 5\nprint(len(b), len(n), b[0], n[1])\n"},
 	"plain": {"main.tsh": "a := 3\nfor i := 0; i < a; i++ {\n\tif i == 1 {\n\t\tcontinue\n\t}\n\tprint(i)\n}\ns := []int{1, 2}\ns[3] = 4\nprint(len(s), \"x\"[0:1])\n"},
 	"dirA": {"main.tsh": "import u \"util.tsh\"\n\nprint(u.Label(1), u.Twice(2))\n",
 		"util.tsh": "func Label(n int) string {\n\treturn \"item-\" + itoa(n)\n}\nfunc Twice(n int) int {\n\treturn n * 2\n}\nfunc Unused() int {\n\treturn 0\n}\n"},
